@@ -170,10 +170,32 @@ func oracleServe(c serveCase, o serveObs) []core.Failure {
 			}
 		}
 	}
+	// an etag file's content is sent in a header: it must be the etag file of what is served
+	// (served name + configured extension), below the root and not hidden
+	etagAbs := ""
+	if o.etagName != "" {
+		etagAbs = resolve(c.cwd, o.etagName)
+		okName := false
+		for _, ext := range c.etagExt {
+			if o.fileName+ext == o.etagName {
+				okName = true
+			}
+		}
+		switch {
+		case !okName:
+			fs = append(fs, fail("etag-from-wrong-file", "request path %q: Etag taken from %q, served file %q, extensions %q", c.path, o.etagName, o.fileName, c.etagExt))
+		case !under(R, etagAbs):
+			fs = append(fs, fail("etag-leaks-outside-file", "request path %q: the content of %q (outside root %q) was sent as Etag", c.path, etagAbs, R))
+		default:
+			if h, _ := specHidden(c.cwd, c.hide, etagAbs); h {
+				fs = append(fs, fail("hidden-etag-file-served", "request path %q: the content of %q, which is hidden (hide %q), was sent in the Etag header of %q", c.path, etagAbs, c.hide, o.fileName))
+			}
+		}
+	}
 	// (b) whatever was read (bytes or directory entries) is below the root and not hidden
 	for _, n := range append(append([]string{}, m.readFile...), m.readDir...) {
 		p := resolve(c.cwd, n)
-		if p == sidecarAbs && under(R, p) {
+		if (p == sidecarAbs || p == etagAbs) && under(R, p) {
 			continue
 		}
 		if !under(R, p) {
@@ -278,7 +300,7 @@ func oracleServe(c serveCase, o serveObs) []core.Failure {
 			fs = append(fs, fail("unexpected-outcome", "request path %q: 403 without a permission error in the tree", c.path))
 		}
 	case "error", "unavailable":
-		if !hasKind(c.tree, 'e') {
+		if !hasKind(c.tree, 'e') && len(c.etagExt) == 0 {
 			fs = append(fs, fail("unexpected-outcome", "request path %q: %s without an i/o error in the tree", c.path, kindOf))
 		}
 	case "listing-unparsable":
@@ -391,6 +413,12 @@ func serveTags(c serveCase, o serveObs) []string {
 		if _, err := url.Parse(c.orig); err != nil {
 			t = append(t, "serve:redirect-original-unparsable")
 		}
+	}
+	if o.etagName != "" {
+		t = append(t, "serve:etag-from-file")
+	}
+	if len(c.etagExt) > 0 && kindOf == "error" {
+		t = append(t, "serve:etag-file-unreadable")
 	}
 	if c.phRoot {
 		t = append(t, "serve:root-from-placeholder")
